@@ -52,6 +52,31 @@ CLAIMED = {
         "Conformance evaluation in 12-bit fixed point (tolerance ~1e-2) for bounded magnitudes only; monotonicity / "
         "bounds checked on the recorded grid points; the repaired defect is listed as fixed.",
         "DESIGN.md section 3 (C07)"),
+    "C05": (
+        "TLA+ definitions of the PWL / categorical calibration functions with their properties model-checked by TLC; "
+        "real layer outputs validated by TLC against the definitions",
+        "TLC checks for every keypoint vector, integer kernel (cyclic or not) and grid point of the model that the PWL "
+        "function passes through (keypoint_i, cumulative sum_i), is linear on each segment, constant outside, equal at "
+        "both ends when cyclic, stays within the hull of the keypoint outputs, and - across every grid step - inherits "
+        "monotonicity from the heights. Real PWLCalibration layers (single-column and per-unit inputs, split_outputs, "
+        "cyclic, missing_input_value with learned/fixed output, is_missing tensor), keypoints_inputs()/outputs() and "
+        "CategoricalCalibration (every index, default values) are recorded; TLC recomputes each value exactly. "
+        "Learned interior keypoints: ordered, end points fixed, function passes through separated reported points.",
+        "Keypoints that coincide in float32 (softmax underflow / below resolution) are recorded as the documented "
+        "floating-point limit, not as violations.",
+        "DESIGN.md section 3 (C05)"),
+    "C19": (
+        "TLA+ transcription of custom_reduce_prod's gradient formula checked equal to the product's derivative for "
+        "every zero pattern by TLC; real tf.GradientTape gradients validated by TLC",
+        "TLC proves on all integer vectors over -2..2 up to length 4 (6 thorough) that the code's three-part formula "
+        "(divide_no_nan term + single-zero term) equals dy * prod_{j#i} t_j. The same vectors are embedded along each "
+        "axis of real tensors and differentiated with tf.GradientTape through custom_reduce_prod; TLC recomputes the "
+        "true derivative for every recorded gradient. KFL layer gradients w.r.t. kernel, scale and inputs are compared "
+        "with autodiff of the plain expression (weights with exact zeros); Lattice / PWL / categorical kernel "
+        "gradients are compared with the interpolation weights defined in LatticeInterp / CalibratorOps (non-negative, "
+        "summing to one, independent of the kernel).",
+        "Input gradients only away from grid lines (points of non-differentiability excluded as the statement says).",
+        "DESIGN.md section 3 (C19)"),
     "C06": (
         "TLA+ state machine of the partial-order projection (DFS topological sort, min/max passes) and of "
         "linear_lib.project / categorical project, model-checked over all DAGs; TLC-enumerated cases replayed; results "
